@@ -427,4 +427,36 @@ def stale_derived_attributes(model, rels):
                             ok = True
                     if not ok:
                         out.append((c, ini, a, t.attr, used, reconf[used[0]]))
+            # ... and what is derived from the *attributes* the setter stores (directly or through a method of the object that reads them), after the setter ran
+            for x in _wnn(ini):
+                if not (isinstance(x, _ast.Call) and isinstance(x.func, _ast.Attribute) and isinstance(x.func.value, _ast.Name) and x.func.value.id == 'self' and x.func.attr.startswith('set_')):
+                    continue
+                r = c.find_method(x.func.attr)
+                if r is None:
+                    continue
+                setter = r[1]
+                stored = {y.attr for y in _wnn(setter) if isinstance(y, _ast.Attribute) and isinstance(y.ctx, _ast.Store) and isinstance(y.value, _ast.Name) and y.value.id == 'self'}
+
+                def reads(e, depth=0):
+                    got = {y.attr for y in _ast.walk(e) if isinstance(y, _ast.Attribute) and isinstance(y.ctx, _ast.Load) and isinstance(y.value, _ast.Name) and y.value.id == 'self'}
+                    if depth < 2:
+                        for y in _ast.walk(e):
+                            if isinstance(y, _ast.Call) and isinstance(y.func, _ast.Attribute) and isinstance(y.func.value, _ast.Name) and y.func.value.id == 'self':
+                                rr = c.find_method(y.func.attr)
+                                if rr is not None and rr[1] is not ini:
+                                    for st in rr[1].body:
+                                        got |= reads(st, depth + 1)
+                    return got
+                for a in _wnn(ini):
+                    if not isinstance(a, _ast.Assign) or a.lineno <= x.lineno:
+                        continue
+                    for t in a.targets:
+                        if isinstance(t, _ast.Attribute) and isinstance(t.value, _ast.Name) and t.value.id == 'self' and t.attr not in stored:
+                            used = sorted(reads(a.value) & stored)
+                            # the setter refreshes it when it calls the same computing step
+                            calls_same = any(isinstance(y, _ast.Call) and _ast.unparse(y.func) in {_ast.unparse(z.func) for z in _ast.walk(a.value) if isinstance(z, _ast.Call)
+                                                                                                      and isinstance(z.func, _ast.Attribute) and isinstance(z.func.value, _ast.Name)
+                                                                                                      and z.func.value.id == 'self'} for y in _wnn(setter))
+                            if used and not calls_same and not any(o[2] is a for o in out):
+                                out.append((c, ini, a, t.attr, ['self.' + u for u in used], setter.name))
     return n, out
